@@ -10,9 +10,9 @@ make -j8 > /tmp/vs_make.log 2>&1; mk=$?
 make test > /tmp/vs_test.log 2>&1; t1=$?
 ok1=$(grep -c ' \.\.\. ok$' /tmp/vs_test.log)
 bash out/run_demo.sh > /tmp/vs_demo1.log 2>&1; d1=$?
-git stash -q
+git apply -R out/patch.diff
 make -j8 > /tmp/vs_make2.log 2>&1
 bash out/run_demo.sh > /tmp/vs_demo2.log 2>&1; d2=$?
-git stash pop -q
+git apply out/patch.diff
 make -j8 > /tmp/vs_make3.log 2>&1
 echo "{\"dir\":\"$d\",\"patch_matches_tree\":$applied,\"make_rc\":$mk,\"suite_rc_with_change\":$t1,\"suite_ok_lines\":$ok1,\"demo_rc_with_change\":$d1,\"demo_rc_without_change\":$d2}"
